@@ -84,6 +84,8 @@ theorem padInt4 {v : Int} (h0 : 0 ≤ v) (h1 : v < 10000) : padInt 4 v = dig4 v.
 /-- the UTC year of the value has four digits: the range in which the canonical form is inside the lexical space of the type -/
 def InYearRange (v : DtVal) : Prop := 0 ≤ (gmtime v.time).year ∧ (gmtime v.time).year ≤ 9999
 
+instance (v : DtVal) : Decidable (InYearRange v) := by unfold InYearRange; infer_instance
+
 /-- the part of the canonical form behind the seconds -/
 def canonTail (v : DtVal) : Bytes :=
   (match v.frac with | some f => 46 :: f | none => []) ++ (if v.unknownTz then [45, 48, 48, 58, 48, 48] else [43, 48, 48, 58, 48, 48])
